@@ -482,6 +482,127 @@ def codec_semantics(ctx, rep, rule: str) -> None:
     rep.ob(rule, "codec-round-trip", not bad, m.functions["flatten"].loc(), f"{len(cases)} nested dictionaries (str / int keys that collide as text, separators, quotes, brackets, empty tensors, leaf-less sub-dictionaries): injective flat keys, leaves passed through as objects, exact round trip" + (f"; fails for {bad[0][0]!r}: {bad[0][1]}" if bad else ""), sample=True)
 
 
+def module_round_trip(ctx, rep, rule: str) -> None:
+    """OptimizerModule.state_dict / load_state_dict interpreted on small object graphs (tensors, nested modules, dicts, lists and
+    tuples incl. tuples that mix tensors with None / numbers / strings, non-tensor attributes): the state dict of a module,
+    loaded into a structurally equal module with other values, reproduces every tensor value IN PLACE — the same tensor objects
+    hold the loaded values afterwards, no attribute is re-bound to a loaded object — with the default flags."""
+    import copy as _copy
+
+    from types import SimpleNamespace
+
+    from ..guards import MISSING, Interp, Raised, Returned, Unsupported, stdlib_resolver
+
+    repo = ctx.repo
+    om = repo.cls(OM)
+    m = om.module
+
+    class T:  # tensor stand-in: identity + a value
+        def __init__(self, v):
+            self.v = v
+            self.dtype, self.device, self.shape = "f32", "dev", (1,)
+
+        def detach(self):
+            return self
+
+        def copy_(self, other):
+            self.v = other.v
+            return self
+
+        def clone(self):
+            return T(self.v)
+
+        def __repr__(self):
+            return f"<tensor {self.v}>"
+
+    class M:  # OptimizerModule stand-in: a bag of attributes
+        def __init__(self, **kw):
+            self.__dict__.update(kw)
+
+    torch_ns = SimpleNamespace(Tensor=T)
+    res = stdlib_resolver(repo, m, lambda nm: torch_ns if nm == "torch" else (T if nm == "Tensor" else (M if nm == "OptimizerModule" else MISSING)))
+
+    def run_method(name, selfobj, args, kwargs, depth=0):
+        fi = repo.meth(om, name)
+        params = [p_ for p_ in fi.params if p_ != "self"]
+        env = {"self": selfobj, **dict(zip(params, args)), **kwargs}
+        a_ = fi.node.args
+        names = [x.arg for x in a_.args]
+        for n_, d_ in zip(names[len(names) - len(a_.defaults):], a_.defaults):
+            if n_ not in env:
+                env[n_] = Interp({}, resolve_name=res).ev(d_)
+        body = [s_ for s_ in fi.node.body if not (isinstance(s_, ast.Expr) and isinstance(s_.value, ast.Constant))]
+
+        def hook(it, c):
+            f = c.func
+            if isinstance(f, ast.Attribute):
+                try:
+                    recv = it.ev(f.value)
+                except Unsupported:
+                    return MISSING
+                if isinstance(recv, T) and f.attr in ("detach", "copy_", "clone"):
+                    return getattr(recv, f.attr)(*[it.ev(x) for x in c.args])
+                if isinstance(recv, M) and f.attr in ("state_dict", "load_state_dict"):
+                    if depth > 4:
+                        raise Unsupported("module nesting depth")
+                    return run_method(f.attr, recv, [it.ev(x) for x in c.args], {k.arg: it.ev(k.value) for k in c.keywords if k.arg}, depth + 1)
+            return MISSING
+
+        try:
+            Interp(env, resolve_name=res, call_hook=hook).run(body, lambda e: ast.unparse(e))
+        except Returned as r:
+            return r.value
+        return None
+
+    def build(tag):
+        k = iter(range(100))
+        t = lambda: T(f"{tag}{next(k)}")
+        return M(
+            a=t(), label="x", count=3,
+            seq=(t(), t()), mixed=(t(), None, 2.5), named=["name", t(), t()],
+            table={"p": t(), 7: {"q": t()}},
+            child=M(w=t(), inner=M(z=(t(),)), note="n"),
+            empty=(), nothing=None,
+        )
+
+    def tensors(o, path=()):
+        if isinstance(o, T):
+            yield path, o
+        elif isinstance(o, M):
+            for k_, v_ in o.__dict__.items():
+                yield from tensors(v_, path + (k_,))
+        elif isinstance(o, dict):
+            for k_, v_ in o.items():
+                yield from tensors(v_, path + (k_,))
+        elif isinstance(o, (list, tuple, set)):
+            for i_, v_ in enumerate(o):
+                yield from tensors(v_, path + (i_,))
+
+    bad = []
+    try:
+        src, dst = build("s"), build("d")
+        before = dict(tensors(dst))
+        sd = run_method("state_dict", src, [], {})
+        if not isinstance(sd, dict):
+            bad.append(f"state_dict() returned {sd!r}")
+        else:
+            run_method("load_state_dict", dst, [sd], {})
+            after = dict(tensors(dst))
+            want = {p_: t_.v for p_, t_ in tensors(src)}
+            for p_, t_ in before.items():
+                if p_ not in after or after[p_] is not t_:
+                    bad.append(f"tensor object at {p_} was replaced")
+                elif t_.v != want.get(p_):
+                    bad.append(f"tensor at {p_} holds {t_.v!r}, the loaded state has {want.get(p_)!r}")
+            if dst.label != "x" or dst.count != 3 or dst.mixed[1:] != (None, 2.5) or dst.named[0] != "name":
+                bad.append("non-tensor entries changed under the default flags")
+    except Raised as r:
+        bad.append(f"raises {r.exc_name}")
+    except Unsupported as u:
+        raise AnalysisError(f"{rule}: OptimizerModule.state_dict / load_state_dict outside the interpreted sub-language: {u}") from u
+    rep.ob(rule, "module-round-trip", not bad, om.module.relpath, "state_dict() of a module graph (nested modules, dicts, tuples and lists mixing tensors with None / numbers / strings) loaded into a structurally equal graph: every tensor object is kept and holds the loaded value, non-tensor entries untouched" + (f"; {bad[:2]}" if bad else ""), sample=True)
+
+
 def module_writer_reader_defaults(ctx, rep, rule: str) -> None:
     """OptimizerModule.state_dict and load_state_dict are called without flags by the checkpoint utilities (extract /
     update): a default load must expect exactly what a default save wrote — parameters the two share have equal defaults."""
@@ -541,6 +662,7 @@ def run(ctx, rep) -> None:
     rep.attempt("module_writer_reader_defaults", module_writer_reader_defaults, ctx, rep, "C16.2")
     rep.attempt("kind_tables", kind_tables, ctx, rep, "C16.2")
     rep.attempt("in_place_loading", in_place_loading, ctx, rep, "C16.3")
+    rep.attempt("module_round_trip", module_round_trip, ctx, rep, "C16.3")
     rep.attempt("emission", emission, ctx, rep, "C16.4")
     rep.attempt("leafless_not_required", leafless_not_required, ctx, rep, "C16.5")
     rep.assume("value equality after load and round-trip for all key values rely on JSON and torch copy_ semantics — NOT decided beyond the structural pairing")
